@@ -15,6 +15,7 @@ import (
 	"github.com/aws/smithy-go"
 	"github.com/truora/minidyn/core"
 	"github.com/truora/minidyn/interpreter"
+	"github.com/truora/minidyn/interpreter/language"
 	coretypes "github.com/truora/minidyn/types"
 	"github.com/truora/minidyn/verifhook"
 )
@@ -368,6 +369,10 @@ func (fd *Client) getItem(ctx context.Context, input *dynamodb.GetItemInput) (*d
 		return nil, mapKnownError(err)
 	}
 
+	if err := validateProjectionExpression(input.ProjectionExpression); err != nil {
+		return nil, err
+	}
+
 	table, err := fd.getTable(aws.ToString(input.TableName))
 	if err != nil {
 		return nil, mapKnownError(err)
@@ -403,6 +408,10 @@ func (fd *Client) Query(ctx context.Context, input *dynamodb.QueryInput, opt ...
 	err := validateExpressionAttributes(input.ExpressionAttributeNames, input.ExpressionAttributeValues, aws.ToString(input.KeyConditionExpression), aws.ToString(input.FilterExpression), aws.ToString(input.ProjectionExpression))
 	if err != nil {
 		return nil, mapKnownError(err)
+	}
+
+	if err := validateProjectionExpression(input.ProjectionExpression); err != nil {
+		return nil, err
 	}
 
 	table, err := fd.getTable(aws.ToString(input.TableName))
@@ -448,6 +457,10 @@ func (fd *Client) Scan(ctx context.Context, input *dynamodb.ScanInput, opt ...fu
 	err := validateExpressionAttributes(input.ExpressionAttributeNames, input.ExpressionAttributeValues, aws.ToString(input.ProjectionExpression), aws.ToString(input.FilterExpression))
 	if err != nil {
 		return nil, mapKnownError(err)
+	}
+
+	if err := validateProjectionExpression(input.ProjectionExpression); err != nil {
+		return nil, err
 	}
 
 	table, err := fd.getTable(aws.ToString(input.TableName))
@@ -741,6 +754,19 @@ func (fd *Client) getTable(tableName string) (*core.Table, error) {
 	}
 
 	return table, nil
+}
+
+// validateProjectionExpression refuses a projection that is not a list of document paths
+func validateProjectionExpression(expression *string) error {
+	if strings.TrimSpace(aws.ToString(expression)) == "" {
+		return nil
+	}
+
+	if err := language.CheckProjectionExpression(aws.ToString(expression)); err != nil {
+		return &smithy.GenericAPIError{Code: "ValidationException", Message: "Invalid ProjectionExpression: " + err.Error()}
+	}
+
+	return nil
 }
 
 func validateExpressionAttributes(exprNames map[string]string, exprValues map[string]types.AttributeValue, genericExpressions ...string) error {
